@@ -22,6 +22,7 @@ type tableFeat struct {
 	Summary    bool
 	Object     string // "", embed, object, applet, iframe
 	BlankCap   bool   // an empty <caption> in front of another header structure (never alone)
+	Pre        int    // another table before the one under test: 0 none, 1 scope cell, 2 headers cell, 3 lone abbr, 4 plain 2x2, 5 caption+th
 	EditSpell  int    // spelling of the contenteditable attribute on a <div>: ="true", ="", bare, ="plaintext-only"
 	Place      string // div, section, blockquote, layout-td
 }
@@ -267,7 +268,8 @@ func (f tableFeat) html(g *tokCounter) string {
 	return s
 }
 
-func (f tableFeat) doc() string {
+// doc returns the page and the range (lo, hi] of the token numbers written inside the table under test.
+func (f tableFeat) docRange() (string, int, int) {
 	g := &tokCounter{}
 	htmlAttr, bodyAttr := "", ""
 	if f.Editable && f.EditableAt == "html" {
@@ -276,7 +278,29 @@ func (f tableFeat) doc() string {
 	if f.Editable && f.EditableAt == "body" {
 		bodyAttr = ` contenteditable="true"`
 	}
-	return `<html` + htmlAttr + `><head><title>zz</title></head><body` + bodyAttr + `><div><p>` + g.toks(60) + `</p><p>` + g.toks(60) + `</p>` + f.html(g) + `<p>` + g.toks(60) + `</p></div></body></html>`
+	head := `<html` + htmlAttr + `><head><title>zz</title></head><body` + bodyAttr + `><div><p>` + g.toks(60) + `</p><p>` + g.toks(60) + `</p>`
+	// another table earlier in the same document: the verdict on one table must not depend on the tables before it
+	switch f.Pre {
+	case 1:
+		head += `<table><tr><td scope="col">` + g.tok() + `</td><td>` + g.tok() + `</td></tr><tr><td>` + g.tok() + `</td><td>` + g.tok() + `</td></tr><tr><td>` + g.tok() + `</td><td>` + g.tok() + `</td></tr></table><p>` + g.toks(40) + `</p>`
+	case 2:
+		head += `<table><tr><td headers="h">` + g.tok() + `</td><td>` + g.tok() + `</td><td>` + g.tok() + `</td></tr><tr><td>` + g.tok() + `</td><td>` + g.tok() + `</td><td>` + g.tok() + `</td></tr></table><p>` + g.toks(40) + `</p>`
+	case 3:
+		head += `<table><tr><td><abbr>` + g.tok() + `</abbr></td><td>` + g.tok() + `</td></tr><tr><td>` + g.tok() + `</td><td>` + g.tok() + `</td></tr></table><p>` + g.toks(40) + `</p>`
+	case 4:
+		head += `<table><tr><td>` + g.tok() + `</td><td>` + g.tok() + `</td></tr><tr><td>` + g.tok() + `</td><td>` + g.tok() + `</td></tr></table><p>` + g.toks(40) + `</p>`
+	case 5:
+		head += `<table><caption>` + g.tok() + `</caption><tr><th>` + g.tok() + `</th><th>` + g.tok() + `</th></tr><tr><td>` + g.tok() + `</td><td>` + g.tok() + `</td></tr></table><p>` + g.toks(40) + `</p>`
+	}
+	lo := g.n
+	tbl := f.html(g)
+	hi := g.n
+	return head + tbl + `<p>` + g.toks(60) + `</p></div></body></html>`, lo, hi
+}
+
+func (f tableFeat) doc() string {
+	s, _, _ := f.docRange()
+	return s
 }
 
 func genTableDoc(r *RNG) string {
